@@ -151,6 +151,12 @@ def check_prune(trie, db, model, info, ref):
     rc = impl("ref_count", lambda: trie.ref_count)
     got = {bytes(h): c for h, c in rc.items() if c}
     expect_eq("ref-count-true", got, dict(counts), "reference counts")
+    # the count reported for one node: indexing, for live nodes and for nodes that died
+    seen = info.scratch.setdefault(("seen-hashes", id(db)), set())
+    seen.update(counts)
+    for h in sorted(seen):
+        c = impl("ref_count", lambda: trie.ref_count[h])
+        expect_eq("ref-count-true", int(c), counts.get(h, 0), f"ref_count[{h.hex()}]")
     regen = impl("regenerate_ref_count", trie.regenerate_ref_count)
     expect_eq("ref-count-equals-regenerated", {bytes(h): c for h, c in regen.items() if c},
               dict(counts), "regenerate_ref_count()")
